@@ -188,7 +188,12 @@ def _oracle_histogram(call):
                 type(call.exc).__name__, str(call.exc)[:200]), {"kw": {k: v for k, v in call.kwargs.items() if k != "weights"}})
         return
     r = call.result
+    wants_stats = bool(call.kwargs.get("more")) or call.kwargs.get("weights") is not None
     if not isinstance(r, dict):
+        if wants_stats:
+            # more=True / weights= are documented to return the dictionary-like object carrying the per-bin statistics
+            COL.violation(_mon(call.kwargs.get("nperbin")), "histogram(more / weights) returned %s instead of the statistics object" % type(r).__name__,
+                          {"kw": {k: v for k, v in call.kwargs.items() if k != "weights"}}, key="histogram/no-stats-object")
         return
     kw = call.kwargs
     nperbin = call.arg(4, "nperbin")
